@@ -33,7 +33,7 @@ def run(R):
     R.drive("c08", "out=" + tr1, "cases=" + cf, timeout=3000)
     R.validate("Trace_P2J", tr1, reset_events=("PSchema",), timeout=3000)
     tr2 = os.path.join(R.scratch, "c08-b.ndjson")
-    R.drive("c08", "out=" + tr2, "n=%d" % (500 if q else 25000), "seed=%d" % R.seed, timeout=3000)
+    R.drive("c08", "out=" + tr2, "n=%d" % (500 if q else 6000), "seed=%d" % R.seed, timeout=3000)
     R.validate("Trace_P2J", tr2, reset_events=("PSchema",), timeout=3000)
     R.extra_cov["tlc_cases_replayed"] = len(cases)
     return vlib.finish(R, "model_checking", RULE, ASSUME)
